@@ -199,11 +199,11 @@ def pou_decl(o, p):
     o.w(kw[1] + "\n")
 
 
-def config_decl(o, c):
+def config_decl(o, c, resource="RES"):
     o.w("CONFIGURATION ").w(c["n"], ("config", c["n"])).w("\n")
     if c["globals"]:
         var_blocks(o, c["n"], c["globals"])
-    o.w("  RESOURCE RES ON PLC\n")
+    o.w("  RESOURCE %s ON PLC\n" % resource)
     if c["rglobals"]:
         var_blocks(o, c["n"], c["rglobals"], indent="    ")
     for t in c["tasks"]:
@@ -231,6 +231,10 @@ def decl_texts(unit):
         o = Out()
         config_decl(o, unit["config"])
         out.append((unit["config"]["n"], o.text(), o.sites))
+    if unit.get("config2") and unit["config2"]["n"] != "-":
+        o = Out()
+        config_decl(o, unit["config2"], resource="RES2")
+        out.append((unit["config2"]["n"], o.text(), o.sites))
     return out
 
 
